@@ -266,6 +266,35 @@ def run(ctx: Ctx, tier: str) -> Result:
                                  "(object without that attribute/method, non-string key, raising dunder) loses the whole snapshot" % (
                                      op.kind, norm(op.subject)[:60])))
     res.floor("operations on host values in the collector", nops, 12)
+    # what the search iterates is a sequence on every path: the child finders answer a (possibly empty) list, never None
+    nf = 0
+    for c_ in [c for f_ in scope.values() for c in t.calls_in(f_) if isinstance(c.func, ast.Attribute) and c.func.attr == "add_children" and c.args]:
+        pass
+    for k in sorted(scope):
+        fi = scope[k]
+        if not (fi.cls is None and fi.module.name == "deep.processor.variable_processor" and (fi.name.startswith("process_") and "breadth" in fi.name
+                                                                                                or fi.name in ("process_child_nodes", "find_children_for_parent"))):
+            continue
+        nf += 1
+        rets = list(t.nodes_in(fi, ast.Return))
+        bad = [r for r in rets if r.value is None or (isinstance(r.value, ast.Constant) and r.value.value is None)]
+        if bad or not paths.always_returns(fi.node.body):
+            res.fail(Finding("C06.TOTAL", fi.qname, bad[0] if bad else "<fall-off>", fi.loc(bad[0]) if bad else fi.loc(),
+                             "%s can answer None instead of a list of children: the search then fails on `for child in None` and the whole snapshot is lost "
+                             "(values of a childless type, values below the depth limit)" % fi.name))
+        else:
+            res.ok("C06.TOTAL", {"child finder answers a list on every path": fi.qname})
+    res.floor("child finder functions", nf, 4)
+    # the placeholder for a value whose str() fails is text
+    ss = [f for f in scope.values() if f.name == "safe_str"]
+    for f_ in ss:
+        for h in t.nodes_in(f_, ast.ExceptHandler):
+            for r in [n for n in ast.walk(h) if isinstance(n, ast.Return)]:
+                if isinstance(r.value, ast.JoinedStr) or (isinstance(r.value, ast.Constant) and isinstance(r.value.value, str)) or \
+                        (isinstance(r.value, ast.BinOp) and isinstance(r.value.left, ast.Constant) and isinstance(r.value.left.value, str)):
+                    res.ok("C06.TOTAL", {"placeholder text for an unprintable value": norm(r.value)[:60]})
+                else:
+                    res.fail(Finding("C06.TOTAL", f_.qname, r, f_.loc(r), "the fallback for a value whose str() fails is not a placeholder text (%s)" % norm(r.value if r.value is not None else r)))
 
     # ---------------- INDEP
     es = p.cls("deep.api.tracepoint.eventsnapshot.EventSnapshot")
